@@ -435,13 +435,21 @@ fn plan_c09(o: &Opts) -> Vec<GroupSpec> {
          out.push(GroupSpec { members });
          continue;
       }
-      let mut prog = gen::gen_any(&mut r, &GenCfg::core());
+      // every sixth base program has in-program macros: an include may separate a macro's definition from its invocations
+      let with_macros = i % 6 == 3;
+      let mut prog = if with_macros { vcore::gen_mac::gen_macros(&mut r, &GenCfg::core()) } else { gen::gen_any(&mut r, &GenCfg::core()) };
       if prog.rels.iter().any(|d| d.cols.is_empty()) {
          continue;
       }
+      if with_macros {
+         let expanded = vcore::xform::expand_macros(&prog);
+         if prog.macros.is_empty() || gen::kf2_shape(&expanded) || gen::kf20_shape(&expanded) {
+            continue;
+         }
+      }
       // an input relation that is read only under negation / aggregation (initialised relations that no positive clause
       // or head mentions must still be indexed)
-      if r.chance(45) && !prog.rels.iter().any(|d| d.name == "gate" || d.name == "gated" || d.name == "gcount") {
+      if !with_macros && r.chance(45) && !prog.rels.iter().any(|d| d.name == "gate" || d.name == "gated" || d.name == "gcount") {
          use vcore::ast::*;
          let src: Vec<RelDecl> = prog.rels.iter().filter(|d| !d.is_lattice && d.ds.is_none() && matches!(d.cols[0], Ty::I32 | Ty::U32 | Ty::Str)).cloned().collect();
          if !src.is_empty() {
@@ -467,7 +475,7 @@ fn plan_c09(o: &Opts) -> Vec<GroupSpec> {
       let prog = prog;
       let base = format!("C09-s{}-{}", o.seed, i - 1);
       let par_ok = gen::par_rejects(&prog).is_none();
-      let n_items = prog.rels.len() + prog.rules.len();
+      let n_items = prog.rels.len() + prog.macros.len() + prog.rules.len();
       let plain_inputs: Vec<String> = prog.rels.iter().filter(|d| d.is_input && !d.is_lattice && d.ds.is_none()).map(|d| d.name.clone()).collect();
       let positively_used: std::collections::BTreeSet<String> = {
          fn walk(items: &[vcore::ast::BodyItem], out: &mut std::collections::BTreeSet<String>) {
@@ -510,6 +518,21 @@ fn plan_c09(o: &Opts) -> Vec<GroupSpec> {
             let mut op = PrintOpts::plain(Kind::AscentRunPar);
             op.init_rels = neg_only_inputs.clone();
             add("ascent_run_par_init_unmentioned", op);
+         }
+      }
+      if with_macros {
+         // includes cut between the declarations, the macro definitions and the rules
+         for (name, kind) in [("include_source_macros", Kind::Ascent), ("include_source_macros_run", Kind::AscentRun), ("include_source_macros_par", Kind::AscentPar)] {
+            if kind == Kind::AscentPar && !par_ok {
+               continue;
+            }
+            let lo = prog.rels.len();
+            let a = lo + r.below(prog.macros.len() + 1);
+            let b = a + r.below(n_items - a + 1);
+            let (a, b) = if r.chance(50) { (a, b) } else { (r.below(a + 1), a) };
+            let mut op = PrintOpts::plain(kind);
+            op.include_cut = Some((a, b));
+            add(name, op);
          }
       }
       // a seeded choice of 5-6 packagings per base
@@ -638,6 +661,10 @@ fn plan_ds(o: &Opts, prop: &str, ds: vcore::ast::Ds) -> Vec<GroupSpec> {
          // every third program: another attribute in front of the relation's `#[ds(..)]`
          let mut opts0 = PrintOpts::plain(Kind::Ascent);
          opts0.doc_before_ds = i % 3 == 1;
+         // every fifth program also names the default provider program-wide: the relation's own attribute must win
+         if i % 5 == 3 {
+            opts0.attrs.push("ds(::ascent::rel)".into());
+         }
          let mut members = vec![MemberSpec { prog: prog.clone(), opts: opts0, meta: m }];
          if ds == vcore::ast::Ds::EqRel && !ternary && i % 4 == 0 {
             if let Some(kf) = gen::par_rejects(&prog) {
